@@ -52,6 +52,8 @@ class RefModule:
         m.name, m.path, m.relpath, m.src, m.sha256, m.tree = self.target, path, os.path.relpath(path, os.path.dirname(REF_DIR)), src, hashlib.sha256(src.encode()).hexdigest(), tree
         m.imports, m.classes, m.functions, m.assigns = dict(real.imports), dict(real.classes), dict(real.functions), dict(real.assigns)
         self.funcs = {}
+        self.class_bases = {}      # class name -> [qualified base names]  (as declared by the reference)
+        self.class_fields = {}     # class name -> [annotated field names] (dataclass fields)
         for st in tree.body:
             if isinstance(st, ast.Import):
                 for a in st.names:
@@ -60,6 +62,8 @@ class RefModule:
                 for a in st.names:
                     m.imports[a.asname or a.name] = (st.module + "." + a.name) if st.module else a.name
             elif isinstance(st, ast.ClassDef):
+                self.class_bases[st.name] = [program.qualify(m, dotted(b)) for b in st.bases if dotted(b)]
+                self.class_fields[st.name] = [b.target.id for b in st.body if isinstance(b, ast.AnnAssign) and isinstance(b.target, ast.Name)]
                 real_cls = program.classes.get(self.target + "." + st.name)
                 for b in st.body:
                     if isinstance(b, ast.FunctionDef):
@@ -74,9 +78,11 @@ class Contracts:
     def __init__(self, program):
         self.program = program
         self.refs = {}       # qualname -> (RefModule, FuncInfo, meta)
+        self.ref_modules = []
         for fn in sorted(os.listdir(REF_DIR)):
             if fn.endswith(".py") and not fn.startswith("_"):
                 rm = RefModule(program, os.path.join(REF_DIR, fn))
+                self.ref_modules.append(rm)
                 for short, fi in rm.funcs.items():
                     meta = rm.contracts.get(short)
                     if meta is None:
